@@ -67,9 +67,7 @@ func Main(kind string) {
 				specs = append(specs, in)
 			}
 		}
-		if kind == "c25" || RaceEnabled {
-			specs = append(specs, genStress(kind, cfg)...)
-		}
+		specs = append(specs, genStress(kind, cfg)...) // the plain build of c26 checks completion only
 	}
 	exe, err := os.Executable()
 	if err != nil {
